@@ -266,6 +266,52 @@ func runC12Range(c *core.Case, k int) {
 	}
 	_ = db.Unlock(ctx, A, []litefs.LockType{litefs.LockTypeRead1})
 	_ = db.Unlock(ctx, B, []litefs.LockType{litefs.LockTypeRead2})
+	// ---- the same with a refusal that comes late: B takes and drops READ2 all the
+	// time, so some of A's requests for READ1..READ2 (exclusive; or shared on top of
+	// an exclusive READ1) find every byte free when they look and READ2 taken when
+	// they get there. Whatever the interleaving, after a refused request A holds
+	// READ1 as before it
+	stop.Store(false)
+	wg.Add(1)
+	go func() {
+		defer wg.Done()
+		for !stop.Load() {
+			if ok, _ := db.TryLocks(ctx, B, []litefs.LockType{litefs.LockTypeRead2}); ok {
+				_ = db.Unlock(ctx, B, []litefs.LockType{litefs.LockTypeRead2})
+			}
+		}
+	}()
+	refused, bad := 0, ""
+	for i := 0; i < 20000 && bad == ""; i++ {
+		pre := "unlocked"
+		if i%2 == 1 {
+			if ok, _ := db.TryLocks(ctx, A, []litefs.LockType{litefs.LockTypeRead1}); !ok {
+				continue
+			}
+			pre = "exclusive"
+		}
+		var ok bool
+		if i%2 == 1 {
+			ok = db.TryRLocks(ctx, A, []litefs.LockType{litefs.LockTypeRead1, litefs.LockTypeRead2})
+		} else {
+			ok, _ = db.TryLocks(ctx, A, []litefs.LockType{litefs.LockTypeRead1, litefs.LockTypeRead2})
+		}
+		if !ok {
+			refused++
+			if st := db.GuardSet(A).Guard(litefs.LockTypeRead1).State().String(); st != pre {
+				bad = fmt.Sprintf("request %d (shared=%v) for READ1..READ2 was refused (another owner takes and drops READ2 all the time); A held READ1 %s before it and holds it %s afterwards", i, i%2 == 1, pre, st)
+			}
+		}
+		_ = db.Unlock(ctx, A, []litefs.LockType{litefs.LockTypeRead1, litefs.LockTypeRead2})
+	}
+	stop.Store(true)
+	wg.Wait()
+	c.Count("range_racing_requests", 20000)
+	c.Count("range_racing_refusals", refused)
+	if bad != "" {
+		c.Violate("C12/range/refused-request-changed-state", bad, nil)
+		return
+	}
 	c.Distinct(fmt.Sprintf("range/k%d", k%8))
 }
 
